@@ -46,6 +46,16 @@ def check(run):
     cases, res = loadfam.gen_cases(run, "MC_Router", "MC_Router_%s.cfg" % run.tier, timeout=7200)
     if len(cases) < 100:
         raise vp.ToolError("MC_Router produced too few cases")
+    # design-level model of the client-side synchronisation protocol (effects, popstate, deferred navigations): not bound to the
+    # code (no browser here, DESIGN 0.6) and deciding nothing about C14; it is model-checked with the rest of the specification so
+    # that it stays consistent: type invariant and settling must hold, the two recorded observations must still be refuted
+    rs = vp.tlc("RouterSync", "MC_RouterSync.cfg" if quick else "MC_RouterSync_thorough.cfg", run.workdir, workers=4)
+    vp.tlc_ok(rs, "RouterSync")
+    run.add_mc("RouterSync (design-level, unbound: TypeOK, Settles)", rs)
+    obs = vp.tlc("RouterSync", "MC_RouterSync_observations.cfg", run.workdir, workers=1)
+    run.notes["RouterSync_observations_refuted"] = obs["violated"]
+    if obs["violated"] not in ("Agree", "Honoured"):
+        raise vp.ToolError("RouterSync: the recorded observations (Agree / Honoured refuted) no longer reproduce: %r" % (obs["violated"],))
     depth = 2 if quick else 3
     rows = []
     for i, c in enumerate(cases):
